@@ -14,7 +14,7 @@ func init() {
 	register(&propDef{
 		ID:      "C11",
 		Level:   "other",
-		Explain: "Certificate store and sources, decided structurally. Sites are found by ROLE (what an instruction does) inside REGIONS (an entry plus the same-package helpers and closures below it), not by the names of unexported functions: the certificate SET is the struct type with a []tls.Certificate field that package cert publishes with a sync/atomic store (any spelling) or keeps in a field of a holder struct with a sync.Mutex/RWMutex, its INDEX is the string-keyed map (or maps) - a field of the set or of a small struct the set holds - that delivers a certificate, a pointer to one or a POSITION in the list, the HANDSHAKE CALLBACKS are the functions stored into tls.Config.GetCertificate, the PUBLISH ENTRY is the function taking a []tls.Certificate below which the set is published. Calls are followed through static callees, through the interfaces package cert declares itself (a callback turned into an interface) and through function values kept in locals, parameters, struct fields and package variables. (A1) every publish below the publish entry is dominated by the construction of the index of the published set, and nothing writes the set afterwards; (A2) no function below a handshake callback can load the published set twice on one path, and a function that is handed the set does not reload it (no handshake sees a mixture of two sets); (M1) whatever a handshake callback returns as a certificate taken from the list by position is returned under a known 'not strict' condition - unless the position is what a tested lookup in the name index delivered (selected by name) - and a strict miss returns (nil, nil); the strictness flag may be a bool or an enumerated mode whose constants are chosen by it; (M2) every lookup in the name index below a handshake callback uses a key derived from strings.ToLower(ServerName) - at every call site of an accessor the key is handed to - with trailing dots trimmed (hand-written loop, strings.TrimRight/TrimSuffix/TrimRightFunc); (M3) wildcard candidates keep the label count of the requested name (Split / store \"*\" / Join); (M4) every key stored into the name index is known non-empty or an element of the certificate's DNSNames; (M5) the publish entry reaches the atomic publish on every path; (L1) every cycle of every condition-less loop in package cert is paced (sleep, channel operation, a helper that always does one of these, or an advancing Consul blocking query) and the error edge of a Consul query sleeps — a source delivering unusable material cannot spin; (L2) no send on a certificates channel is reachable from the error edge of the fallible loader that produced the value, also when loader and send are in different functions — unusable material never replaces the working set; (L3) the loop that builds the result of the PEM loader runs over a sorted name list, not over map iteration; (L4) TLSConfig starts, on every path to a successful return, a goroutine that applies every set received from src.Certificates() to the store unconditionally. Not decided: X.509 name matching beyond the exact / one-label-wildcard index lookup (certificate contents).",
+		Explain: "Certificate store and sources, decided structurally. Sites are found by ROLE (what an instruction does) inside REGIONS (an entry plus the same-package helpers and closures below it), not by the names of unexported functions: the certificate SET is the struct type with a []tls.Certificate field that package cert publishes with a sync/atomic store (any spelling) or keeps in a field of a holder struct with a sync.Mutex/RWMutex, its INDEX is the string-keyed map (or maps) - a field of the set or of a small struct the set holds - that delivers a certificate, a pointer to one or a POSITION in the list, the HANDSHAKE CALLBACKS are the functions stored into tls.Config.GetCertificate, the PUBLISH ENTRY is the function taking a []tls.Certificate below which the set is published. Calls are followed through static callees, through the interfaces package cert declares itself (a callback turned into an interface) and through function values kept in locals, parameters, struct fields and package variables. (A1) every publish below the publish entry is dominated by the construction of the index of the published set, and nothing writes the set afterwards; (A2) no function below a handshake callback can load the published set twice on one path, and a function that is handed the set does not reload it (no handshake sees a mixture of two sets); (M1) whatever a handshake callback returns as a certificate taken from the list by position is returned under a known 'not strict' condition - unless the position is what a tested lookup in the name index delivered (selected by name) - and a strict miss returns (nil, nil); the strictness flag may be a bool or an enumerated mode whose constants are chosen by it; (M2) every lookup in the name index below a handshake callback uses a key derived from strings.ToLower(ServerName) - at every call site of an accessor the key is handed to - with trailing dots trimmed (hand-written loop, strings.TrimRight/TrimSuffix/TrimRightFunc); (M3) wildcard candidates keep the label count of the requested name (Split / store \"*\" / Join); (M4) every key stored into the name index is known non-empty or an element of the certificate's DNSNames; (M5) the publish entry reaches the atomic publish on every path; (L1) every cycle of every condition-less loop in package cert, and of every loop with a condition that may deliver certificates or certificate material on a channel (a watcher whose cycle is a step method: for !w.step() {}, or that runs until a stop flag is set), is paced (sleep, channel operation, a helper that always does one of these, or an advancing Consul blocking query) and the error edge of a Consul query sleeps — a source delivering unusable material cannot spin; (L2) no send on a certificates channel is reachable from the error edge of the fallible loader that produced the value, also when loader and send are in different functions — unusable material never replaces the working set; (L3) the loop that builds the result of the PEM loader runs over a sorted name list, not over map iteration; (L4) TLSConfig starts, on every path to a successful return, a goroutine that applies every set received from src.Certificates() to the store unconditionally. Not decided: X.509 name matching beyond the exact / one-label-wildcard index lookup (certificate contents).",
 		Run:     runC11,
 		Trusted: []string{"Consul blocking queries with WaitIndex block until the index moves or the wait time passes", "sync/atomic.Value", "sync/atomic.Pointer"},
 		Mutants: []mutant{
@@ -882,7 +882,51 @@ func (m *c11Model) strictKnownDepth(b *ssa.BasicBlock, depth int) int {
 
 // c11at is a point control passed through: a block, or the edge from a block to one of its successors (the edge a phi
 // operand comes in on carries the branch condition even when the predecessor block itself does not).
-type c11at struct{ b, to *ssa.BasicBlock }
+type c11at struct {
+	b, to *ssa.BasicBlock
+	v     ssa.Value // at a return block: the value returned there (nil when not recorded)
+}
+
+// strictKnownForNil: at is a return block that control reaches over several edges and none of its own facts speaks of
+// strictness - `if cert != nil || strictMatch { return cert, nil }`. For the nil that comes out here the edges taken
+// because the returned value is NOT nil are impossible; when every other edge is taken under a known 'strict' branch,
+// the nil is returned under strict matching.
+func (m *c11Model) strictKnownForNil(at c11at) int {
+	if at.b == nil || at.to != nil || at.v == nil || len(at.b.Preds) < 2 {
+		return 0
+	}
+	isNilTest := func(f Fact) bool { // the fact says: at.v is not nil
+		b, ok := f.Cond.(*ssa.BinOp)
+		if !ok || !(b.Op == token.NEQ && f.Truth || b.Op == token.EQL && !f.Truth) {
+			return false
+		}
+		return b.X == at.v && isNilConst(b.Y) || b.Y == at.v && isNilConst(b.X)
+	}
+	n := 0
+	for _, p := range at.b.Preds {
+		impossible := false
+		if len(p.Instrs) > 0 && len(p.Succs) == 2 && p.Succs[0] != p.Succs[1] {
+			if iff, ok := p.Instrs[len(p.Instrs)-1].(*ssa.If); ok {
+				for _, f := range appendCondFacts(nil, iff.Cond, p.Succs[0] == at.b, 0) {
+					if isNilTest(f) {
+						impossible = true
+					}
+				}
+			}
+		}
+		if impossible {
+			continue
+		}
+		if m.strictKnownAt(c11at{b: p, to: at.b}) <= 0 {
+			return 0
+		}
+		n++
+	}
+	if n > 0 {
+		return 1
+	}
+	return 0
+}
 
 func (m *c11Model) strictKnownAt(at c11at) int { return m.strictKnownAtDepth(at, 0) }
 
@@ -934,7 +978,7 @@ func c11certOrigins(v ssa.Value, chain []c11at, depth int, seen map[ssa.Value]bo
 		}
 		eachInstr(sc, func(i ssa.Instruction) {
 			if r, ok := i.(*ssa.Return); ok && idx < len(r.Results) {
-				c11certOrigins(r.Results[idx], with(c11at{b: call.Block()}, c11at{b: r.Block()}), depth+1, seen, out)
+				c11certOrigins(r.Results[idx], with(c11at{b: call.Block()}, c11at{b: r.Block(), v: r.Results[idx]}), depth+1, seen, out)
 			}
 		})
 		return true
@@ -1025,11 +1069,15 @@ func runC11M(c *Ctx, m *c11Model) {
 				return
 			}
 			var leaves []c11leaf
-			c11certOrigins(r.Results[0], []c11at{{b: r.Block()}}, 0, map[ssa.Value]bool{}, &leaves)
+			c11certOrigins(r.Results[0], []c11at{{b: r.Block(), v: r.Results[0]}}, 0, map[ssa.Value]bool{}, &leaves)
 			for _, l := range leaves {
 				notStrict, strict := false, false
 				for _, at := range l.chain {
-					switch s := m.strictKnownAt(at); {
+					s := m.strictKnownAt(at)
+					if s == 0 && isNilConst(l.v) {
+						s = m.strictKnownForNil(at)
+					}
+					switch {
 					case s < 0:
 						notStrict = true
 					case s > 0:
